@@ -91,6 +91,27 @@ example : (drain (setCursor { cursor := 3, latest := 3 } (.int 0)).1).2 = [1, 2,
 
 end CS.FsCursor
 
+/-! ## Reference tree: a rename onto an occupied name is refused or replaces only an empty folder -/
+namespace CS.Tree
+variable {C : Type}
+
+/-- **rename_never_destroys_other_bytes** — for every tree (a map: distinct keys), every target, every destination and
+    whatever the outcome: each file of the tree is still a file with the same content after `rename` (at its own key or
+    at the key it moved to).  Together with `rename_refused_changes_nothing` this is the clause the filesystem provider
+    and the mock are compared against: a rename onto an occupied name is refused with Exists — or replaces an *empty
+    folder*, the only entry `rename` ever removes — and never costs another object its bytes. -/
+theorem rename_never_destroys_other_bytes (cfg : Cfg) (t : T C) (hn : (t.map (·.1)).Nodup) (tg : Option Path) (dst : Path)
+    (k : Path) (n : Node C) (hk : (k, n) ∈ t) (hfile : n.kind = .file) :
+    ∃ k' n', (k', n') ∈ (rename cfg t tg dst).1 ∧ n'.kind = .file ∧ n'.content = n.content :=
+  rename_keeps_every_file cfg t hn tg dst k n hk hfile
+
+/-- a refused rename changes nothing -/
+theorem rename_refused_is_noop (cfg : Cfg) (t : T C) (tg : Option Path) (dst : Path) (e : Err)
+    (h : (rename cfg t tg dst).2 = .err e) : (rename cfg t tg dst).1 = t :=
+  rename_refused_changes_nothing cfg t tg dst e h
+
+end CS.Tree
+
 /-! ## Provider.connect: credentials of another identity are refused -/
 namespace CS.Conn
 variable {Cr : Type}
